@@ -195,3 +195,44 @@ func zzC09_tcp_selftest() {
 	symWaitUntil(func() bool { return runDone })
 	symAssert(n == 0, "selftest: must fail (the callback ran)")
 }
+
+// connection setup over a stream the peer has already reset: the connection's very first write (its CSM) fails.
+// Run reports the error - and the connection is closed like any other: Done() completes, every on-close callback
+// runs exactly once, Close afterwards changes nothing
+func zzC09_tcp_setup_fails() {
+	nc := zzNewPipe()
+	broken := symChoose("first-write-fails", 2) == 1
+	nc.broken = broken
+	zzPipeSendCSM = true
+	cc := zzNewPipeConn(nc)
+	onClose := [2]int{}
+	cc.AddOnClose(func() { onClose[0]++ })
+	cc.AddOnClose(func() { onClose[1]++ })
+	runDone := false
+	var runErr error
+	go func() {
+		runErr = cc.Run()
+		runDone = true
+	}()
+	if broken {
+		symCover("csm-write-failed")
+		symWaitUntil(func() bool { return runDone })
+		symAssert(runErr != nil, "Run reports that the connection could not be set up")
+	} else {
+		symIdle()
+		symAssert(!runDone && len(nc.frames) == 1, "the connection announced itself and is serving")
+		_ = cc.Close()
+		symWaitUntil(func() bool { return runDone })
+		symCover("closed-after-setup")
+	}
+	select {
+	case <-cc.Done():
+	default:
+		symAssert(false, "the connection's done signal is completed when Run has returned")
+	}
+	symAssert(onClose[0] == 1 && onClose[1] == 1, "every on-close callback ran exactly once")
+	_ = cc.Close()
+	_ = cc.Close()
+	symAssert(onClose[0] == 1 && onClose[1] == 1, "closing again runs no callback again")
+	symAssert(nc.closes >= 1, "the socket is closed")
+}
